@@ -1459,12 +1459,26 @@ def _m_from_bits(eng, st, callee, args, ev):
     return ("from_bits", a)
 
 
+def _is_option_callee(callee):
+    s = (callee.get("args") or [""])[0] if callee else ""
+    return isinstance(s, str) and re.match(r"^(std|core)::option::Option<", s) is not None
+
+
+NONE = ("agg", "adt", "core::option::Option", "None", (), (), 0)
+NONE_RESIDUAL = ("none_residual",)
+
+
 def _m_try_branch(eng, st, callee, args, ev):
+    if _is_option_callee(callee):
+        # `opt?`: continue with the payload iff Some (an Option numbers None = 0, Some = 1; ControlFlow numbers Continue = 0)
+        return ("try", ("ok_or", args[0], NONE_RESIDUAL))
     return ("try", args[0])
 
 
 def _m_from_residual(eng, st, callee, args, ev):
     a = args[0]
+    if _is_option_callee(callee):
+        return NONE
     if a[0] == "residual":
         return ("err_from", a[1])
     return ("err_from", ("unwrapped_residual", a))
